@@ -442,7 +442,8 @@ WITNESSES = [
     ("b_wna_noise 1 3", "wna_noise"), ("b_wna_noise 3 2", "wna_noise"),                            # fixed by d63c821
     ("b_lm 4 1 1 2 1 2", "lm"), ("b_lm 4 3 3 2 3 0 1 3", "lm"),                                    # fixed by f96e245
     ("b_utmm 1 2 2 0 0 0 2  2 0 0 2  2 0 0  2 0 2 2 2  1 0 1", "utmm"),                            # fixed by ca060a6
-    ("b_corrseq 1 3 0 0  3 0 0 2  2 0 0  2 0 2 2 2  1 1 1  2  2 1 1 1  2 1 0 1", "ukf_seq"),     # fixed by 5117f2c
+    ("b_corrseq 1 3 0 0  3 0 0 2  2 0 0  2 0 2 2 2  1 1 1  2  2 1 1 1 0  2 1 0 1 0", "ukf_seq"),     # fixed by 5117f2c
+    ("b_corrseq 2 2 0 0  2 0 0 2  4 0 0  4 0 4 4 2  1 1 1  2 1  2  1 1 1 1 0  1 1 1 0 6", "sukf_seq"),  # fixed by 9d4c3da (measurement 4, then 6 with a failing innovation)
 ]
 
 
@@ -479,24 +480,51 @@ def gen_sequences(ctx):
     for (n, comps) in ((4, [0, 2]), (4, [1]), (6, [0, 2, 4]), (2, [0, 1]), (5, [4, 0, 2, 1])):
         for ns in num_seqs:
             out.append(("b_lm_seq %d %d %s %d %s" % (n, len(comps), " ".join(map(str, comps)), len(ns), " ".join(map(str, ns))), "lm_seq"))
-    alphabet = [(2, 1, 1, 1), (1, 1, 1, 1), (2, 0, 1, 1), (2, 1, 0, 1), (2, 1, 1, 0), (1, 1, 0, 1), (3, 1, 1, 1)]
-    seqs = [[a] for a in alphabet] + [[a, b] for a in alphabet for b in alphabet]
-    if ctx.tier == "thorough":
-        seqs += [[a, b, c] for a in alphabet for b in alphabet for c in alphabet]
-    for _ in range(ctx.n(60, 400)):
-        seqs.append([g.r.choice(alphabet) for _ in range(g.r.randint(3, 7))])
+    # one step = (K, measure ok, predictedMeasure ok, innovation ok, measurement size at this call [0 = as configured])
+    def step_seqs(sizes):
+        alphabet = [(K, mv, pv, iv, z) for (K, mv, pv, iv) in ((2, 1, 1, 1), (1, 1, 1, 1), (2, 0, 1, 1), (2, 1, 0, 1), (2, 1, 1, 0), (1, 1, 0, 1), (1, 1, 1, 0), (3, 1, 1, 1))
+                    for z in sizes]
+        seqs = [[a] for a in alphabet]
+        succ = [a for a in alphabet if a[1] and a[2] and a[3]]
+        # a failed call after a successful one (every failing stage x every size change, non-monotone), then a success again
+        seqs += [[a, b] for a in succ for b in alphabet]
+        if ctx.tier == "thorough":
+            seqs += [[a, b, c] for a in succ for b in alphabet if not (b[1] and b[2] and b[3]) for c in succ[::3]]
+        for _ in range(ctx.n(60, 400)):
+            seqs.append([g.r.choice(alphabet) for _ in range(g.r.randint(3, 7))])
+        return seqs
     configs = [((3, 0, 0), (2, 0, 0)), ((2, 1, 0), (1, 1, 0))]
     for (dl, dc, q), (ml, mc, mq) in configs:
         tot, dof = dim_of(ml, mc, mq), dcov_of(ml, mc, mq)
-        for kind in (0, 1, 2):
+        for kind in (0, 1, 2, 3):
             if kind == 2:
-                M = 2 * tot
-                meas = "%d %d %d %d  %d %d %d  %d 0 %d %d %d  1 1 1  %d 1" % (dl, dc, q, tot, M, 0, 0, M, M, M, tot, tot)
+                variants = [("%d %d %d %d  %d 0 0  %d 0 %d %d %d  1 1 1  2 1" % (dl, dc, q, 2, 4, 4, 4, 4, 2), (0, 2, 4, 6)),       # reduced R, sub-size 2
+                            ("%d %d %d %d  %d 0 0  %d 0 %d %d %d  1 1 1  2 0" % (dl, dc, q, 4, 4, 4, 4, 4, 4), (0, 2, 6, 3))]       # full R (3: not a multiple)
+            elif kind == 3:
+                variants = [("%d %d %d %d  %d 0 0  %d 0 %d %d %d  1 1 1" % (dl, dc, q, tot, tot, tot, tot, tot, tot), (0,))]
             else:
-                meas = "%d %d %d %d  %d %d %d  %d 0 %d %d %d  1 1 1" % (dl, dc, q, dof, ml, mc, mq, tot, dof, tot, dof)
-            for sq in seqs:
-                steps = "  ".join("%d %d %d %d" % st for st in sq)
-                out.append(("b_corrseq %d %d %d %d  %s  %d  %s" % (kind, dl, dc, q, meas, len(sq), steps), ("ukf_seq", "ukf_seq", "sukf_seq")[kind]))
+                variants = [("%d %d %d %d  %d %d %d  %d 0 %d %d %d  1 1 1" % (dl, dc, q, dof, ml, mc, mq, tot, dof, tot, dof), (0, 1, 3))]
+            for meas, sizes in variants:
+                for sq in step_seqs(sizes):
+                    steps = "  ".join("%d %d %d %d %d" % st for st in sq)
+                    out.append(("b_corrseq %d %d %d %d  %s  %d  %s" % (kind, dl, dc, q, meas, len(sq), steps), ("ukf_seq", "ukf_seq", "sukf_seq", "kf_seq")[kind]))
+    # BootstrapCorrection / GPFCorrection / EstimatesExtraction: a failed call after a successful one, then every getter (twice)
+    b_alpha = [(3, 1, 1, 1), (1, 1, 1, 1), (2, 0, 1, 1), (2, 1, 0, 1), (3, 1, 1, 0)]
+    b_seqs = [[a, b] for a in b_alpha for b in b_alpha] + [[g.r.choice(b_alpha) for _ in range(g.r.randint(3, 6))] for _ in range(ctx.n(20, 100))]
+    for (dl, dc, q) in ((4, 0, 0), (1, 1, 1)):
+        for sq in b_seqs:
+            out.append(("b_bootseq %s  %s  %d  %s" % (lay(dl, dc, q), meas_tokens(dl, dc, q, 2, 2, 0, 0, 2, 0, 2, 2, 2), len(sq), "  ".join("%d %d %d %d" % st for st in sq)), "boot_seq"))
+    g_alpha = [(3, 1), (1, 1), (2, 0), (3, 0)]
+    g_seqs = [[a, b] for a in g_alpha for b in g_alpha] + [[g.r.choice(g_alpha) for _ in range(g.r.randint(3, 5))] for _ in range(ctx.n(10, 60))]
+    for d in (1, 2, 3):
+        for hm in (1, 2):
+            for sq in g_seqs:
+                out.append(("b_gpfcseq %d %d %d  %s" % (d, hm, len(sq), "  ".join("%d %d" % st for st in sq)), "gpfc_seq"))
+    for (ls, cs) in ((2, 1), (0, 2), (3, 0)):
+        for N in (1, 4):
+            for _ in range(ctx.n(25, 150)):
+                sq = [(g.r.randint(0, 11), g.r.randint(0, 1)) for _ in range(g.r.randint(2, 9))]
+                out.append(("b_eeseq %d %d %d %d  %s" % (ls, cs, N, len(sq), "  ".join("%d %d" % st for st in sq)), "ee_seq"))
     return out
 
 
@@ -668,6 +696,8 @@ def finding_key(line, group):
     t = line.split()
     if t[0] == "b_corrseq":
         kind, dc, q, mc, mq = int(t[1]), int(t[3]), int(t[4]), int(t[10]), int(t[11])
+        if kind == 3:
+            return "kf-call-sequence:abort-on-valid"
         if kind in (0, 1):
             return "ukf-quaternion-state" if (q and dc > 0) else ("ukf-quaternion-measurement" if (mq and mc > 0) else "ukf-call-sequence:abort-on-valid")
         return "sukf-quaternion-state" if (q and dc > 0) else "sukf-call-sequence:abort-on-valid"
@@ -805,7 +835,7 @@ def branch_tags(line, group, hk, hp):
             tags.append("GPFCorrection:" + ("weights updated" if int(t[6]) else "likelihood unavailable -> copy") + (" in place" if int(t[7]) else ""))
         elif group == "sis":
             tags.append("SIS:%d filtering step(s)" % int(t[8]))
-        elif group in ("ukf_seq", "sukf_seq"):
+        elif group in ("ukf_seq", "sukf_seq", "kf_seq"):
             toks = hp.split()
             prev_ok = False
             for x in toks:
@@ -885,7 +915,9 @@ ENTRY = {
     "ee_perturbed": "EstimatesExtraction::extract", "eefn": "EstimatesExtraction::mean/mode/map", "gpfmove": "GPFCorrection (moved) ::sampleFromProposal",
     "gpfsample": "GPFCorrection::sampleFromProposal", "wna_seq": "WhiteNoiseAcceleration::getNoiseSample/motion (call sequence on one object)",
     "lm_seq": "LinearModel::getNoiseSample (call sequence on one object)", "ukf_seq": "UKFCorrection::correct/getLikelihood (call sequence on one object)",
-    "sukf_seq": "SUKFCorrection::correct/getLikelihood (call sequence on one object)",
+    "sukf_seq": "SUKFCorrection::correct/getLikelihood (call sequence on one object)", "kf_seq": "KFCorrection::correct/getLikelihood (call sequence on one object)",
+    "boot_seq": "BootstrapCorrection::correct/getLikelihood (call sequence on one object)", "gpfc_seq": "GPFCorrection::correct/getLikelihood (call sequence on one object)",
+    "ee_seq": "EstimatesExtraction::setMethod/extract/getInfo (call sequence on one object)",
     "linprop": "LinearStateModel::propagate", "kfp": "KFPrediction::predict", "gpfp": "GPFPrediction::predict", "ukfp_gen": "UKFPrediction::predict (generic)",
     "ukfp_add": "UKFPrediction::predict (additive)", "draw": "DrawParticles::predict", "glik": "GaussianLikelihood::likelihood",
     "boot": "BootstrapCorrection::correct/getLikelihood", "gpfc": "GPFCorrection::correct", "sis": "SIS (initialisation + filtering steps, real thread)",
@@ -900,7 +932,7 @@ def group_of(line):
     if op == "ukfc":
         return ("ukf_gen", "ukf_add", "sukf")[min(int(t[1]), 2)]
     if op == "corrseq":
-        return ("ukf_seq", "ukf_seq", "sukf_seq")[min(int(t[1]), 2)]
+        return ("ukf_seq", "ukf_seq", "sukf_seq", "kf_seq")[min(int(t[1]), 3)]
     return {"kfc": "kf"}.get(op, op)
 
 
